@@ -84,8 +84,10 @@ def _new_loss(P, c):
                            use_radial_weight=c['radial'], use_fullres_l0=c['fullres'], equi=c['equi'])
 
 
-def _rand_cfgs(rng, n, flags, vary):
-    """n per-call configurations: `vary` = probability that a parameter changes between two calls"""
+def _rand_cfgs(rng, n, flags, vary, couple=False):
+    """n per-call configurations: `vary` = probability that a parameter changes between two calls.  `couple`: a change of `n_pyramid_levels` /
+    `n_orientations` comes with another target - the target cache of `__call__` is keyed on (gaze, target) only, so with the SAME target the
+    statistics lists of the old and the new configuration would be zipped (sizes differ: RuntimeError); see the module docstring"""
     c = dict(device=0, alpha=0.2, width=2.0, distance=0.3, levels=3, orient=2, mode='quadratic', equi=False, shape=0, target=0, gaze=0,
              space='RGB', vis=False, **flags)
     out = []
@@ -112,6 +114,8 @@ def _rand_cfgs(rng, n, flags, vary):
             c['gaze'] = rng.randrange(3)
         elif r < 0.75:
             c['target'] = rng.randrange(3)
+        if couple and out and (c['levels'], c['orient']) != (out[-1]['levels'], out[-1]['orient']) and c['target'] == out[-1]['target']:
+            c['target'] = (c['target'] + 1) % 3
         c['space'] = rng.choice(['RGB', 'RGB', 'YCrCb'])
         c['vis'] = rng.random() < 0.15
         out.append(c)
@@ -129,7 +133,7 @@ def check_generated_statsmaps(ctx):
     # ---- MetamericLoss.__call__ on the full object: decisions, configuration re-assigned between calls
     for it in range(nseq):
         flags = [dict(l2=True, radial=False, fullres=False), dict(l2=False, radial=True, fullres=True), dict(l2=False, radial=False, fullres=False)][(ctx.seed + it) % 3]
-        seq = _rand_cfgs(rng, rng.randint(*length), flags, 0.35)
+        seq = _rand_cfgs(rng, rng.randint(*length), flags, 0.35, couple=True)
         obj = _new_loss(P, seq[0])
         impl, parts = [], []
         for i, c in enumerate(seq):
@@ -186,7 +190,7 @@ def check_generated_statsmaps(ctx):
 
     # ---- MetamericLossUniform
     for it in range(ctx.n(1, 4)):
-        seq = _rand_cfgs(rng, rng.randint(*length), dict(l2=False, radial=False, fullres=False), 0.5)
+        seq = _rand_cfgs(rng, rng.randint(*length), dict(l2=False, radial=False, fullres=False), 0.5, couple=True)
         obj = P.MetamericLossUniform(n_pyramid_levels=seq[0]['levels'], n_orientations=seq[0]['orient'], pooling_size=8)
         impl, parts = [], []
         for i, c in enumerate(seq):
@@ -211,9 +215,7 @@ def check_generated_statsmaps(ctx):
                 model_logs(ctx, 'gsm_full_uniform %d %s' % (len(parts), ' '.join(parts))), OBSERVED['MetamericLossUniform'])
 
     # ---- calc_statsmaps called directly: decisions, and VALUES against a new object with the configuration of the call
-    for it in range(nseq):
-        flags = [dict(l2=True, radial=False, fullres=False), dict(l2=False, radial=False, fullres=True), dict(l2=False, radial=False, fullres=False)][(ctx.seed + it + 1) % 3]
-        seq = _rand_cfgs(rng, rng.randint(*length), flags, 0.4)
+    def run_direct(seq, flags, first):
         obj = _new_loss(P, seq[0])
         impl, parts = [], []
         rec = {'class': 'MetamericLoss.calc_statsmaps', 'calls': seq, 'seed': ctx.seed}
@@ -240,16 +242,28 @@ def check_generated_statsmaps(ctx):
                               'call) returns %s, a new object with the configuration of that call returns %s'
                               % (i, seq, got if isinstance(got, str) else '%d maps' % len(got), want if isinstance(want, str) else '%d other maps' % len(want)),
                               dict(rec, call=i), {'class': 'MetamericLoss', 'what': 'history', 'method': 'calc_statsmaps'})
-                break
+                return
             parts.append('%s %s %d' % (_cfg_line(c), tok(i + 1, sh, 1000 * c['shape'] + 7 + c['target']), c['gaze']))
             if impl[-1] is None:
                 break
-        else:
-            ctx.case(('gsmfull', 'calc_statsmaps', tuple(tuple(sorted(c.items())) for c in seq)), True, rec if it == 0 else None)
-            ctx.count('regenerated calc_statsmaps vs replaced sub-attributes and vs a new object/%s' % ('l2' if flags['l2'] else 'fullres_l0' if flags['fullres'] else 'plain'))
-            ctx.traces += 1
-            compare(ctx, 'MetamericLoss.calc_statsmaps', 'per-call configurations %s' % (seq,), impl,
-                    model_logs(ctx, 'gsm_stats %d %s' % (len(parts), ' '.join(parts))), OBSERVED['calc_statsmaps'])
+        ctx.case(('gsmfull', 'calc_statsmaps', tuple(tuple(sorted(c.items())) for c in seq)), True, rec if first else None)
+        ctx.count('regenerated calc_statsmaps vs replaced sub-attributes and vs a new object/%s' % ('l2' if flags['l2'] else 'fullres_l0' if flags['fullres'] else 'plain'))
+        ctx.traces += 1
+        compare(ctx, 'MetamericLoss.calc_statsmaps', 'per-call configurations %s' % (seq,), impl,
+                model_logs(ctx, 'gsm_stats %d %s' % (len(parts), ' '.join(parts))), OBSERVED['calc_statsmaps'])
+
+    # a fixed tour: every sub-cache is invalidated once (levels down and up, channel count, orientations, device, size, gaze, equi, alpha, mode)
+    for flags in (dict(l2=True, radial=False, fullres=False), dict(l2=False, radial=False, fullres=True)):
+        c = dict(device=0, alpha=0.2, width=2.0, distance=0.3, levels=3, orient=2, mode='quadratic', equi=False, shape=0, target=0, gaze=0,
+                 space='RGB', vis=False, **flags)
+        tour = [c]
+        for change in (dict(levels=2), dict(shape=2), dict(orient=4), dict(device=1), dict(shape=3), dict(levels=3), dict(gaze=1), dict(equi=True),
+                       dict(alpha=0.35), dict(mode='linear'), dict(shape=0, gaze=2)):
+            tour.append(dict(tour[-1], **change))
+        run_direct(tour, flags, flags['l2'])
+    for it in range(nseq):
+        flags = [dict(l2=True, radial=False, fullres=False), dict(l2=False, radial=False, fullres=True), dict(l2=False, radial=False, fullres=False)][(ctx.seed + it + 1) % 3]
+        run_direct(_rand_cfgs(rng, rng.randint(*length), flags, 0.4), flags, False)
 
     # ---- __call__ values: size / channels / gaze / target change, configuration fixed (wide geometry: the periphery matters)
     for it in range(ctx.n(1, 4)):
